@@ -101,10 +101,14 @@ def run_shard(shard, ctx):
             ctx.hist["E3_unavailable(%s): bounded enumeration only" % e] += 1
             ctx.extra["e3"] = "unavailable: %s" % e
             return
-        if kind == "pairs":
-            _pairs(ctx, by_field, shard[1])
-        else:
-            _inclusion(ctx, by_field)
+        try:
+            if kind == "pairs":
+                _pairs(ctx, by_field, shard[1])
+            else:
+                _inclusion(ctx, by_field)
+        except A.Unsupported as e:  # e.g. recognisers compiled with flags the translator does not model
+            ctx.hist["E3_unavailable(%s): bounded enumeration only" % e] += 1
+            ctx.extra["e3"] = "unavailable: %s" % e
     elif kind == "subsets":
         _subsets(ctx, shard[1])
     elif kind == "values":
@@ -140,7 +144,7 @@ def _pairs(ctx, by_field, i):
                 md = got[1]["metadata"]
                 changed = [k for k in md if k != "resolution" and md[k] != base.get(k)] + (["resolution"] if "Resolution" in (f, gname) else [])
                 if len(changed) >= 2:
-                    ctx.violation("fields-overlap", dict(text=text, kind="overlap"), "line %r is claimed by the recognisers of both %s and %s and sets %r" % (w, f, gname, changed), expected="one field", observed=md, script=e1.script(text, "def probe(c):\n    m = c.metadata\n    return sorted(k for k, v in vars(m).items() if v != getattr(type(m), k, None) and k != 'resolution')", [[], ["x"]]))
+                    ctx.violation("fields-overlap", dict(text=text, kind="overlap"), "line %r is claimed by the recognisers of both %s and %s and sets %r" % (w, f, gname, changed), expected="one field", observed=md, script=e1.script(text, "def probe(c):\n    m = c.metadata\n    n = sum(1 for k, v in vars(m).items() if v != getattr(type(m), k, None) and k != 'resolution')\n    return 'at most one field set' if n <= 1 else '%d fields set by one line' % n", ["at most one field set"]))
 
 
 def _inclusion(ctx, by_field):
@@ -309,5 +313,5 @@ def replay(case):
             return []
         md = got[1]["metadata"]
         changed = [k for k in md if k != "resolution" and md[k] != refmodel.DEFAULTS.get(k)]
-        return [dict(key="fields-overlap", msg="still sets %r" % changed, case=case)] if len(changed) >= 1 else []
+        return [dict(key="fields-overlap", msg="still sets %r" % changed, case=case)] if len(changed) >= 2 else []
     return e1.replay_model_case(case, "metadata")
